@@ -119,6 +119,49 @@ def _is_first_missing(r, pol: bool, ex: ast.expr) -> bool:
     return False
 
 
+def _holds_report_status(fn: FuncInfo, name: str) -> bool:
+    """Some binding of the local `name` is the result of write_report (directly, or on one arm of a conditional expression); the other
+    bindings are integer constants (`status = 0` when no report was asked for)."""
+    vals = [a.value for a in walk_no_nested(fn.node) if isinstance(a, ast.Assign) and any(isinstance(t, ast.Name) and t.id == name for t in a.targets)]
+    vals += [a.value for a in walk_no_nested(fn.node) if isinstance(a, (ast.AnnAssign, ast.NamedExpr)) and a.value is not None and isinstance(a.target, ast.Name) and a.target.id == name]
+    arms = []
+    for v in vals:
+        arms += [v.body, v.orelse] if isinstance(v, ast.IfExp) else [v]
+    is_wr = [isinstance(a, ast.Call) and last_attr(a.func) == "write_report" for a in arms]
+    return any(is_wr) and all(w or (isinstance(a, ast.Constant) and isinstance(a.value, int)) for w, a in zip(is_wr, arms))
+
+
+def _none_return_statuses(ctx, h: FuncInfo) -> set | None:
+    """For a helper that answers None on failure: the documented statuses of the conditions under which it returns None (handler classes,
+    failed existence tests); None when some None-return is not under such a condition (or the helper never returns None)."""
+    def hev(hd):
+        t = hd.type
+        names = ["<bare>"] if t is None else ([last_attr(e) or unparse(e) for e in t.elts] if isinstance(t, ast.Tuple) else [last_attr(t) or unparse(t)])
+        return "EV:handler:" + ",".join(names)
+
+    fa = FlowAnalysis(h.node, node_event=hev)
+    out: set = set()
+    seen_none = False
+    for ex in fa.exits:
+        if ex.kind == "raise":
+            continue
+        is_none = ex.kind != "return" or ex.value is None or (isinstance(ex.value, ast.Constant) and ex.value.value is None)
+        if not is_none:
+            continue
+        seen_none = True
+        for must, _may in ex.state.parts:
+            hs = [h_ for pol, t in must if pol and t.startswith("EV:handler:") for h_ in t[len("EV:handler:"):].split(",")]
+            facts = list(fact_exprs(must))
+            exists_false = any((not pol) and isinstance(e, ast.Call) and (call_name(e) or "").endswith("exists") for pol, e in facts)
+            if hs:
+                out |= {HANDLER_STATUS.get(x) for x in hs}
+            elif exists_false:
+                out.add(1)
+            else:
+                return None
+    return out if seen_none and None not in out else None
+
+
 def rule_status_map(ctx, rep):
     rep.rule(
         "R-STATUS-MAP",
@@ -171,10 +214,28 @@ def rule_status_map(ctx, rep):
             exists_false = any((not pol) and isinstance(ex, ast.Call) and (call_name(ex) or "").endswith("exists") for pol, ex in facts) \
                 or any(_is_first_missing(run_r, pol, ex) for pol, ex in facts)
             report_failed = any(
-                any(isinstance(c, ast.Call) and last_attr(c.func) == "write_report" for c in ast.walk(ex)) or "report_status" in names_in(ex)
+                any(isinstance(c, ast.Call) and last_attr(c.func) == "write_report" for c in ast.walk(ex))
                 or any(isinstance(run_r.expand(nm), ast.Call) and last_attr(run_r.expand(nm).func) == "write_report" for nm in ast.walk(ex) if isinstance(nm, ast.Name))
+                or any(_holds_report_status(run, nm.id) for nm in ast.walk(ex) if isinstance(nm, ast.Name))
                 for pol, ex in facts
             )
+            # `if (files := _helper(argv)) is None: return 1`: the helper's own None-returns say which failure this is
+            helper_statuses = None
+            for pol, ex in facts:
+                nm = None
+                if pol and isinstance(ex, ast.Compare) and len(ex.ops) == 1 and isinstance(ex.ops[0], ast.Is) and isinstance(ex.comparators[0], ast.Constant) and ex.comparators[0].value is None:
+                    nm = ex.left
+                elif (not pol) and isinstance(ex, (ast.Name, ast.NamedExpr, ast.Call)):
+                    nm = ex
+                if nm is None:
+                    continue
+                v = nm.value if isinstance(nm, ast.NamedExpr) else (run_r.expand(nm) if isinstance(nm, ast.Name) else nm)
+                if isinstance(v, ast.NamedExpr):
+                    v = v.value
+                if isinstance(v, ast.Call):
+                    ts = [t for t in run_r.resolve_call(v) if isinstance(t, FuncInfo) and t.module is run.module]
+                    if len(ts) == 1:
+                        helper_statuses = _none_return_statuses(ctx, ts[0])
             if handlers:
                 want = {HANDLER_STATUS.get(h) for h in handlers}
                 classes.add(f"handler({','.join(handlers)})")
@@ -186,6 +247,11 @@ def rule_status_map(ctx, rep):
                 if val != 1:
                     ok = False
                     why = f"returns {val} for a missing directory / result file, documented status is 1"
+            elif helper_statuses is not None:
+                classes.add("helper-reported-failure")
+                if helper_statuses != {val}:
+                    ok = False
+                    why = f"returns {val} when the helper gave up for conditions whose documented status is {sorted(helper_statuses)}"
             elif report_failed:
                 classes.add("report-write-failed")
                 if val != 2:
@@ -292,7 +358,11 @@ def rule_zero_after_report(ctx, rep):
                         return "WR"
                     if isinstance(nm, ast.Name):
                         x = r.expand(nm)
-                        if isinstance(x, ast.Call) and last_attr(x.func) == "write_report":
+                        # the status itself, or a value that is the status on one arm (`st = report.write_report(p) if p else 0`)
+                        alts = [x.body, x.orelse] if isinstance(x, ast.IfExp) else (list(x.values) if isinstance(x, ast.BoolOp) else [x])
+                        if any(isinstance(a, ast.Call) and last_attr(a.func) == "write_report" for a in alts):
+                            return "WR"
+                        if _holds_report_status(run, nm.id):
                             return "WR"
                 return None
 
